@@ -133,46 +133,59 @@ End A.
 Section Collapse.
 Variable o : ops.
 Notation pt := (C o * V o)%type.
-Hypothesis cle_refl : forall a, cleb o a a = true.
-Hypothesis cle_trans : forall a b c, cleb o a b = true -> cleb o b c = true -> cleb o a c = true.
-Hypothesis cle_total : forall a b, cleb o a b = true \/ cleb o b a = true.
-(* _next_highest returns something strictly above its argument *)
-Hypothesis next_above : forall a, cleb o (cnext o a) a = false.
+(* the coordinates that can occur (all of them for integers / rationals; the finite
+   ones for binary64, where NaN is not comparable and +inf has nothing above it) *)
+Variable dom : C o -> Prop.
+Hypothesis cle_refl : forall a, dom a -> cleb o a a = true.
+Hypothesis cle_trans : forall a b c, dom a -> dom b -> dom c ->
+  cleb o a b = true -> cleb o b c = true -> cleb o a c = true.
+Hypothesis cle_total : forall a b, dom a -> dom b -> cleb o a b = true \/ cleb o b a = true.
+(* _next_highest returns something strictly above its argument: nothing in dom that is
+   <= the argument is >= the result *)
+Hypothesis next_above : forall a b, dom a -> dom b -> cleb o b a = true -> cleb o (cnext o a) b = false.
 
-Lemma cminimum_spec : forall l c,
-  cleb o (cminimum o c l) c = true
+Lemma cminimum_spec : forall l c, dom c -> Forall dom l ->
+  dom (cminimum o c l)
+  /\ cleb o (cminimum o c l) c = true
   /\ (forall x, In x l -> cleb o (cminimum o c l) x = true)
   /\ In (cminimum o c l) (c :: l).
 Proof using cle_refl cle_trans cle_total.
-  induction l as [|a l IH]; intros c.
+  induction l as [|a l IH]; intros c Dc Dl.
   - cbn. auto.
-  - unfold cminimum in *. cbn [fold_left].
-    destruct (IH (cmin o c a)) as (H1 & H2 & H3).
-    assert (Hc : cleb o (cmin o c a) c = true /\ cleb o (cmin o c a) a = true /\ (cmin o c a = c \/ cmin o c a = a)).
+  - inversion Dl as [|? ? Da Dl']; subst.
+    unfold cminimum in *. cbn [fold_left].
+    assert (Hc : dom (cmin o c a) /\ cleb o (cmin o c a) c = true /\ cleb o (cmin o c a) a = true
+                 /\ (cmin o c a = c \/ cmin o c a = a)).
     { unfold cmin. destruct (cleb o c a) eqn:E; repeat split; auto.
-      destruct (cle_total c a) as [H|H]; congruence. }
-    destruct Hc as (Hc1 & Hc2 & Hc3).
-    split; [eapply cle_trans; eauto|]. split.
-    + intros x [<-|Hx]; [eapply cle_trans; eauto|auto].
+      destruct (cle_total c a Dc Da) as [H|H]; congruence. }
+    destruct Hc as (Dm & Hc1 & Hc2 & Hc3).
+    destruct (IH (cmin o c a) Dm Dl') as (D1 & H1 & H2 & H3).
+    assert (Dl'' : forall x, In x l -> dom x) by (rewrite Forall_forall in Dl'; exact Dl').
+    split; [exact D1|]. split; [eapply (cle_trans _ (cmin o c a)); eauto|]. split.
+    + intros x [<-|Hx]; [eapply (cle_trans _ (cmin o c a)); eauto|auto].
     + destruct H3 as [H3|H3]; [|right; right; exact H3].
       rewrite <- H3. destruct Hc3 as [->| ->]; [left|right; left]; reflexivity.
 Qed.
 
-Lemma cmaximum_spec : forall l c,
-  cleb o c (cmaximum o c l) = true
+Lemma cmaximum_spec : forall l c, dom c -> Forall dom l ->
+  dom (cmaximum o c l)
+  /\ cleb o c (cmaximum o c l) = true
   /\ (forall x, In x l -> cleb o x (cmaximum o c l) = true)
   /\ In (cmaximum o c l) (c :: l).
 Proof using cle_refl cle_trans cle_total.
-  induction l as [|a l IH]; intros c.
+  induction l as [|a l IH]; intros c Dc Dl.
   - cbn. auto.
-  - unfold cmaximum in *. cbn [fold_left].
-    destruct (IH (cmax o c a)) as (H1 & H2 & H3).
-    assert (Hc : cleb o c (cmax o c a) = true /\ cleb o a (cmax o c a) = true /\ (cmax o c a = c \/ cmax o c a = a)).
+  - inversion Dl as [|? ? Da Dl']; subst.
+    unfold cmaximum in *. cbn [fold_left].
+    assert (Hc : dom (cmax o c a) /\ cleb o c (cmax o c a) = true /\ cleb o a (cmax o c a) = true
+                 /\ (cmax o c a = c \/ cmax o c a = a)).
     { unfold cmax. destruct (cleb o c a) eqn:E; repeat split; auto.
-      destruct (cle_total c a) as [H|H]; congruence. }
-    destruct Hc as (Hc1 & Hc2 & Hc3).
-    split; [eapply cle_trans; eauto|]. split.
-    + intros x [<-|Hx]; [eapply cle_trans; eauto|auto].
+      destruct (cle_total c a Dc Da) as [H|H]; congruence. }
+    destruct Hc as (Dm & Hc1 & Hc2 & Hc3).
+    destruct (IH (cmax o c a) Dm Dl') as (D1 & H1 & H2 & H3).
+    assert (Dl'' : forall x, In x l -> dom x) by (rewrite Forall_forall in Dl'; exact Dl').
+    split; [exact D1|]. split; [eapply (cle_trans _ (cmax o c a)); eauto|]. split.
+    + intros x [<-|Hx]; [eapply (cle_trans _ (cmax o c a)); eauto|auto].
     + destruct H3 as [H3|H3]; [|right; right; exact H3].
       rewrite <- H3. destruct Hc3 as [->| ->]; [left|right; left]; reflexivity.
 Qed.
@@ -181,25 +194,28 @@ Qed.
    one of its points; low is the smallest coordinate of the plateau, high is
    _next_highest of the largest *)
 Theorem collapse_mean_and_interval : forall (bin : list pt) m low high,
+  Forall (fun p => dom (fst p)) bin ->
   collapse_bin o bin = Some (m, low, high) ->
   m = vmean o (map snd bin)
   /\ interval_contains o low high bin
   /\ (exists p, In p bin /\ low = fst p /\ forall q, In q bin -> cleb o low (fst q) = true)
   /\ (exists p, In p bin /\ high = cnext o (fst p) /\ forall q, In q bin -> cleb o (fst q) (fst p) = true).
 Proof using cle_refl cle_trans cle_total next_above.
-  intros bin m low high H. destruct bin as [|p r]; [discriminate|].
+  intros bin m low high Dbin H. destruct bin as [|p r]; [discriminate|].
   cbn [collapse_bin] in H. injection H as <- <- <-.
-  destruct (cminimum_spec (map fst r) (fst p)) as (L1 & L2 & L3).
-  destruct (cmaximum_spec (map fst r) (fst p)) as (M1 & M2 & M3).
+  inversion Dbin as [|? ? Dp Dr]; subst.
+  assert (Dr' : Forall dom (map fst r)).
+  { rewrite Forall_forall in *. intros x Hx. apply in_map_iff in Hx. destruct Hx as (q & <- & Hq). auto. }
+  assert (Dall : forall q, In q (p :: r) -> dom (fst q)) by (rewrite Forall_forall in Dbin; exact Dbin).
+  destruct (cminimum_spec (map fst r) (fst p) Dp Dr') as (L0 & L1 & L2 & L3).
+  destruct (cmaximum_spec (map fst r) (fst p) Dp Dr') as (M0 & M1 & M2 & M3).
   assert (Hlow : forall q, In q (p :: r) -> cleb o (cminimum o (fst p) (map fst r)) (fst q) = true).
   { intros q [<-|Hq]; [exact L1|]. apply L2. apply in_map. exact Hq. }
   assert (Hhigh : forall q, In q (p :: r) -> cleb o (fst q) (cmaximum o (fst p) (map fst r)) = true).
   { intros q [<-|Hq]; [exact M1|]. apply M2. apply in_map. exact Hq. }
   split; [reflexivity|]. split; [|split].
   - intros q Hq. split; [apply Hlow; exact Hq|].
-    destruct (cleb o (cnext o (cmaximum o (fst p) (map fst r))) (fst q)) eqn:E; [|reflexivity].
-    rewrite <- (next_above (cmaximum o (fst p) (map fst r))).
-    symmetry. eapply cle_trans; [exact E|]. apply Hhigh. exact Hq.
+    apply next_above; auto.
   - change (fst p :: map fst r) with (map fst (p :: r)) in L3.
     apply in_map_iff in L3. destruct L3 as (q & Hq1 & Hq2).
     exists q. split; [exact Hq2|]. split; [symmetry; exact Hq1|exact Hlow].
@@ -218,8 +234,10 @@ Theorem collapse_interval_int : forall (bin : list (Z * PrimFloat.float)) m low 
   /\ (exists p, In p bin /\ high = (fst p + 1)%Z).
 Proof.
   intros bin m low high H.
-  destruct (collapse_mean_and_interval ZF) with (5 := H) as (_ & Hc & (p & Hp1 & Hp2 & _) & (q & Hq1 & Hq2 & _));
-    cbn; intros; try lia.
+  assert (D : Forall (fun p : Z * PrimFloat.float => (fun _ : Z => True) (fst p)) bin)
+    by (rewrite Forall_forall; auto).
+  destruct (collapse_mean_and_interval ZF (fun _ => True)) with (6 := H)
+    as (_ & Hc & (p & Hp1 & Hp2 & _) & (q & Hq1 & Hq2 & _)); cbn; intros; try lia; try exact D.
   split; [|split].
   - intros x Hx. destruct (Hc x Hx) as (H1 & H2). cbn in H1, H2. lia.
   - exists p. auto.
@@ -234,12 +252,15 @@ Theorem collapse_interval_Q : forall (next : Q -> Q), (forall x, (x < next x)%Q)
 Proof.
   intros next Hn bin m low high H.
   assert (Hle : forall a b, Qle_bool a b = true <-> (a <= b)%Q) by (intros; apply Qle_bool_iff).
-  destruct (collapse_mean_and_interval (QQ next)) with (5 := H) as (_ & Hc & _); cbn.
+  assert (D : Forall (fun p : Q * Q => (fun _ : Q => True) (fst p)) bin)
+    by (rewrite Forall_forall; auto).
+  destruct (collapse_mean_and_interval (QQ next) (fun _ => True)) with (6 := H) as (_ & Hc & _); cbn; try exact D.
   - intros. apply Hle. apply Qle_refl.
-  - intros a b c. rewrite !Hle. apply Qle_trans.
-  - intros a b. rewrite !Hle. destruct (Qlt_le_dec a b) as [H1|H1]; [left; apply Qlt_le_weak|right]; assumption.
-  - intros a. destruct (Qle_bool (next a) a) eqn:E; [|reflexivity].
-    apply Hle in E. specialize (Hn a). exfalso. apply (Qlt_not_le _ _ Hn E).
+  - intros a b c _ _ _. rewrite !Hle. apply Qle_trans.
+  - intros a b _ _. rewrite !Hle. destruct (Qlt_le_dec a b) as [H1|H1]; [left; apply Qlt_le_weak|right]; assumption.
+  - intros a b _ _ Hba. destruct (Qle_bool (next a) b) eqn:E; [|reflexivity].
+    apply Hle in E. apply Hle in Hba. specialize (Hn a). exfalso.
+    apply (Qlt_not_le _ _ Hn). eapply Qle_trans; eassumption.
   - intros p Hp. destruct (Hc p Hp) as (H1 & H2). cbn in H1, H2. split.
     + apply Hle. exact H1.
     + apply Qnot_le_lt. intros Hx. apply Hle in Hx. congruence.
